@@ -49,12 +49,39 @@ func hashesOver(r *rand.Rand, algos []int32, sweep int) map[int32]string {
 	return h
 }
 
+// spdxNoise sets attributes the property does not list (free texts, attribution, file types; for files also the
+// package-only ones): they must not disturb the listed ones.
+func spdxNoise(r *rand.Rand, n *sbom.Node, p float64) {
+	if r.Intn(3) != 0 {
+		return
+	}
+	fields := []*string{&n.Description, &n.Summary, &n.Comment, &n.SourceInfo}
+	if n.Type == sbom.Node_FILE {
+		fields = append(fields, &n.Version, &n.UrlHome, &n.UrlDownload)
+	}
+	for _, f := range fields {
+		if maybe(r, p) {
+			*f = txt(r)
+		}
+	}
+	if maybe(r, p) {
+		n.Attribution = []string{txt(r), txt(r)}
+	}
+	if maybe(r, p) {
+		n.FileTypes = []string{pick(r, []string{"SOURCE", "BINARY", "TEXT"})}
+	}
+}
+
 // spdxNode: a node inside the SPDX-representable class with each carried attribute present with probability p.
 func spdxNode(r *rand.Rand, id string, p float64, sweep int) *sbom.Node {
 	n := &sbom.Node{Id: id}
 	if r.Intn(3) == 0 {
 		n.Type = sbom.Node_FILE
 		n.Name = txt(r)
+		if maybe(r, p) {
+			n.FileName = txt(r) // the dedicated field: a file's SPDX name is still Node.Name
+		}
+		spdxNoise(r, n, p)
 		if maybe(r, p) {
 			n.LicenseConcluded = pick(r, []string{"MIT", "Apache-2.0", "NOASSERTION"})
 		}
@@ -129,6 +156,7 @@ func spdxNode(r *rand.Rand, id string, p float64, sweep int) *sbom.Node {
 			n.Suppliers[0].Email = pick(r, []string{"sbom@acme.example", "jane.doe+sbom@example.org"})
 		}
 	}
+	spdxNoise(r, n, p)
 	if maybe(r, p) {
 		n.Originators = []*sbom.Person{{Name: pick(r, []string{"Upstream Project", "John Roe"}), IsOrg: r.Intn(2) == 0}}
 		if r.Intn(3) == 0 {
@@ -179,7 +207,9 @@ func genSPDXDoc(r *rand.Rand, i int) *sbom.Document {
 	return d
 }
 
-var cdxIDPool = []string{"root", "a", "b", "c", "d", "e", "pkg:npm/x@1", "urn:cdx:ref/2", "Ünï-ref", "ref with space", "pkg-automake--1.16", "lib-auto--2", "autoconf"}
+var cdxIDPool = []string{"root", "a", "b", "c", "d", "e", "pkg:npm/x@1", "urn:cdx:ref/2", "Ünï-ref", "ref with space", "pkg-automake--1.16", "lib-auto--2", "autoconf",
+	// identifiers made by the public generator from ordinary seeds are ordinary identifiers, also when the seed mentions "auto"
+	sbom.NewNodeIdentifier("pkg:npm/autoprefixer"), sbom.NewNodeIdentifier("lib", "auto"), "protobom--x-auto--y"}
 
 func cdxNode(r *rand.Rand, id string, p float64, v15 bool, sweep int) *sbom.Node {
 	n := &sbom.Node{Id: id, Name: txt(r)}
